@@ -800,6 +800,12 @@ class FunctionVerifier:
         if isinstance(base, SArr):
             if any(isinstance(e, ast.Slice) for e in elts):
                 return self.slice_view(st, base, elts, node, prog)
+            if len(elts) == 1:
+                iv = self.ev(elts[0], st, prog)
+                if isinstance(iv, SArr):
+                    return self.fancy_index(st, base, iv, node, prog)
+                elts = [ast.copy_location(ast.Name(id="__idx0__", ctx=ast.Load()), elts[0])]
+                st.env["__idx0__"] = iv
             idxs = []
             for k, e in enumerate(elts):
                 ix = self.as_int(self.ev(e, st, prog)).e
@@ -809,6 +815,27 @@ class FunctionVerifier:
                 idxs.append(ix)
             return self.load(st, base, idxs, node, prog)
         raise VerifError("subscript of %r" % (base,))
+
+    def fancy_index(self, st, base, iv, node, prog):
+        """a[idx] with a 1-D integer index array: gather along the first axis (trusted NumPy
+        semantics); a[mask] with a boolean mask is handled by externals.mask_select"""
+        from . import externals as X
+
+        io = st.heap[iv.loc]
+        if is_bool_dtype(io.dtype):
+            return X.mask_select(self.E, self, st, base, iv, node, prog)
+        X.USED.add("ndarray gather a[idx] along axis 0 with an in-range integer index array")
+        ishp = self.arr_shape(st, iv)
+        if len(ishp) != 1:
+            raise VerifError("gather with non-1-D index")
+        bshp = self.arr_shape(st, base)
+        bo = st.heap[base.loc]
+        k = self.fresh_int("k")
+        ik = z3.Select(nested_select(io.comps["v"], iv.prefix), k)
+        if prog:
+            self.oblige("index-in-bounds", self.stmt_anchor(node), z3.ForAll([k], z3.Implies(z3.And(k >= 0, k < ishp[0]), z3.And(ik >= 0, ik < bshp[0]))), st, node)
+        comps = {c: z3.Lambda([k], z3.Select(nested_select(t, base.prefix), ik)) for c, t in bo.comps.items()}
+        return self.new_loc(st, bo.dtype, [ishp[0]] + list(bshp[1:]), comps, name="gather")
 
     def slice_view(self, st, base, elts, node, prog):
         """Loads through slices produce a fresh array value (a copy); only patterns used in
@@ -1029,12 +1056,12 @@ class FunctionVerifier:
         return [(st, CONTINUE)]
 
     def feasible(self, st, cond):
-        if self.dry:
-            return True
         c = z3.simplify(cond)
         if z3.is_false(c):
             return False
         if z3.is_true(c):
+            return True
+        if self.dry:
             return True
         return self.E.quick_feasible(st.facts() + [c])
 
@@ -1431,6 +1458,13 @@ class FunctionVerifier:
                     raise VerifError("contract of %s names loop %d but the function has %d loops" % (cd.qualname, k, nloops))
         for name, ty in cd.params:
             st.env[name] = self.make_param(st, name, ty)
+        if cd.defs:
+            self.ghost_mode += 1
+            try:
+                for dstmt in cd.defs:
+                    self.st_Assign(dstmt, st)
+            finally:
+                self.ghost_mode -= 1
         st.old = st.snapshot()
         st.old.old = st.old
         for r in cd.requires:
